@@ -5,11 +5,13 @@ V = os.path.dirname(os.path.dirname(os.path.abspath(__file__)))
 sys.path.insert(0, os.path.join(V, 'engine', 'rules'))
 import core
 assert subprocess.run('git -C /repo status --porcelain --untracked-files=no', shell=True, stdout=subprocess.PIPE, text=True).stdout.strip() == '', '/repo must be clean (pinned tree) when freezing'
-fns = set()
+fns = {}
 for cfg in ('quick', 'nofilactor', 'testing'):
     fdir = subprocess.run([sys.executable, os.path.join(V, 'engine', 'extract.py'), cfg], stdout=subprocess.PIPE, text=True).stdout.strip().splitlines()[-1]
     prog = core.Program(fdir)
-    fns |= {f.id for f in prog.fns.values() if f.kind in ('fn', 'assocfn')}
+    for f in prog.fns.values():
+        if f.kind in ('fn', 'assocfn'):
+            fns.setdefault(f.id, core.fingerprint(f))
 json.dump({'comment': 'function ids of the pinned tree (all three analysed configurations); a function not listed here is new and may be inlined into its callers when a row fails (inline.py)',
-           'fns': sorted(fns)}, open(os.path.join(V, 'tables', 'known_fns.json'), 'w'), indent=0)
+           'fns': dict(sorted(fns.items()))}, open(os.path.join(V, 'tables', 'known_fns.json'), 'w'), indent=0)
 print('functions:', len(fns))
